@@ -14,11 +14,11 @@ Excluded (`Flagged`): sends with the public `custom_seqnum` / `no_increment` arg
 (`C16_finding_no_increment_repeat`).
 
 Control record (`C16_control_step`, `C16_control_history`): after every step the persisted record equals
-(next send, next receive), except (known findings, `CtrlExcluded`)
+(next send, next receive), except (known finding, `CtrlExcluded`)
  * `control-ahead-after-no-increment` (DESIGN section 8 row 25): after a send that does not increment (no_increment, custom
-   number, and the Logout of the forced-logoff exit) the record is one ahead in its send number;
- * `control-behind-after-reject`: the reject exit of `process` increments the expected number WITHOUT
-   `update_persist_seqnums()`: the record's receive number is one behind until the next send or inbound message.
+   number, and the Logout of the forced-logoff exit) the record is one ahead in its send number.
+The reject exit of `process` is covered (`C16_regression_control_after_reject`): it used to increment the expected
+number without `update_persist_seqnums()`; repaired in /repo (class `control-behind-after-reject`, now `fixed`).
 -/
 namespace Fix8Model.Props.C16
 open Fix8Model.Session Fix8Model.Store
@@ -275,11 +275,10 @@ theorem C16_no_repeats (cfg : Cfg) (code : Code) (ss rs : Nat) (rest : List Ev) 
 
 /-! ### the control record -/
 
-/-- the known-finding classes of the control-record clause -/
+/-- the known-finding class of the control-record clause -/
 def CtrlExcluded (s : Sess) (ev : Ev) : Prop :=
   Flagged ev ∨
-  ∃ scan dec, ev = .inbound scan dec ∧ s.started = true ∧ s.shutdown = false ∧
-    (pathOf s scan dec = .reject ∨ pathOf s scan dec = .logoffLogout)
+  ∃ scan dec, ev = .inbound scan dec ∧ s.started = true ∧ s.shutdown = false ∧ pathOf s scan dec = .logoffLogout
 
 /-- **C16, control record, one step**: in every state with an empty batch buffer whose control record is right, every
 event outside the excluded classes leaves it equal to (next send, next receive). -/
@@ -359,8 +358,8 @@ theorem C16_control_step (s : Sess) (ev : Ev) (hb : s.buf = []) (hc : CtrlOK s) 
       cases hpath : pathOf s scan dec with
       | ignored => rw [hpath] at p4; rw [p4.2]; exact hc
       | normal => rw [hpath] at p4; exact p4.2.2
-      | reject => exact absurd (Or.inr ⟨scan, dec, rfl, hact.1, hact.2, Or.inl hpath⟩) hx
-      | logoffLogout => exact absurd (Or.inr ⟨scan, dec, rfl, hact.1, hact.2, Or.inr hpath⟩) hx
+      | reject => rw [hpath] at p4; exact p4.2.2
+      | logoffLogout => exact absurd (Or.inr ⟨scan, dec, rfl, hact.1, hact.2, hpath⟩) hx
       | logoffQuiet =>
         rw [hpath] at p4
         obtain ⟨_, _, q2, q3, q4⟩ := p4
@@ -443,13 +442,16 @@ theorem C16_finding_control_ahead_logout :
     ({ s7 with state := .logonSent }.step (.inbound (some 9) (.ok (logonReply 9)))).1.ns = 7 := by
   refine ⟨by decide, by decide, by decide⟩
 
-/-- KNOWN finding `control-behind-after-reject`: an undecodable frame is answered by a Reject and the expected number
-goes from 5 to 6, but the control record keeps receive number 5. -/
-theorem C16_finding_control_behind :
-    pathOf s7 (some 5) (.throws false) = .reject ∧
+/-- regression of the repaired finding `control-behind-after-reject`: an undecodable frame is answered by a Reject, the
+expected number goes from 5 to 6 and the control record follows (it kept receive number 5 before the repair). -/
+theorem C16_regression_control_after_reject :
+    pathOf s7 (some 5) (.throws false) = .reject ∧ ¬ CtrlExcluded s7 (.inbound (some 5) (.throws false)) ∧
     (s7.step (.inbound (some 5) (.throws false))).1.nr = 6 ∧ (s7.step (.inbound (some 5) (.throws false))).1.ns = 8 ∧
-    ((s7.step (.inbound (some 5) (.throws false))).1.store.bind (·.ctrl)) = some (8, 5) := by
-  refine ⟨by decide, by decide, by decide, by decide⟩
+    ((s7.step (.inbound (some 5) (.throws false))).1.store.bind (·.ctrl)) = some (8, 6) := by
+  refine ⟨by decide, ?_, by decide, by decide, by decide⟩
+  rintro (h | ⟨scan, dec, he, _, _, hp⟩)
+  · exact h
+  · cases he; revert hp; decide
 
 /-- `Flagged` sends are excluded from the numbering clause because they renumber by request: after a `no_increment`
 send the next plain message carries the same number. -/
